@@ -652,4 +652,53 @@ theorem roundCap_ge (esz n : Nat) : n ≤ roundCap esz n := by
 theorem Vec.range_zero_zero (v : Vec) : v.range 0 0 = [] := by simp [Vec.range]
 
 
+/-- the push loop of `from_iter` on a local vector holding `acc` -/
+theorem pushLoopLocal_own {loc locB} : ∀ (k : Nat) (o : Vec) (acc : List Nat) (s : St),
+    OwnL fl s (acc ++ loc) locB → LocalVec o acc →
+    ∃ acc', LocalVec (pushLoopLocal k o s).2.1 acc' ∧
+      OwnL fl (pushLoopLocal k o s).2.2 (acc' ++ loc) locB
+  | 0, o, acc, s, h, ho => by
+    simp only [pushLoopLocal]
+    exact ⟨acc, ho, h.tick⟩
+  | k + 1, o, acc, s, h, ho => by
+    unfold pushLoopLocal
+    have h1 := h.genVal
+    rcases hr : s.onMem Mem.genVal with ⟨_ | a, s'⟩ <;> rw [hr] at h1 <;> simp only at h1 ⊢
+    · exact ⟨acc, ho, h1.1⟩
+    · split
+      · rename_i hc
+        exact pushLoopLocal_own k _ (acc ++ [a]) s' (h1.1.perm (by perm_tac)) (ho.store hc)
+      · exact ⟨acc, ho, h1.1.dropId⟩
+
+theorem iFromIter_own {s loc locB} (hint k : Nat) (h : OwnL fl s loc locB) :
+    OwnL fl (iFromIter hint k s).2 loc locB := by
+  unfold iFromIter
+  have h1 := h.tick
+  generalize s.onMem Mem.tick = r at h1
+  obtain ⟨p0, s1⟩ := r
+  simp only at h1 ⊢
+  split
+  · exact h1
+  · have h2 := h1.tick
+    generalize s1.onMem Mem.tick = r at h2
+    obtain ⟨p1, s2⟩ := r
+    simp only at h2 ⊢
+    split
+    · exact h2.tick
+    · split
+      · obtain ⟨acc', f1, f2⟩ := pushLoopLocal_own (loc := loc) k (HipVerif.Slots.iNew s2.v.cap) [] s2
+          h2 (LocalVec.iNew _)
+        generalize pushLoopLocal k (HipVerif.Slots.iNew s2.v.cap) s2 = r at f1 f2
+        obtain ⟨p, o, s3⟩ := r
+        simp only at f1 f2 ⊢
+        have h3 := f2.tick
+        generalize s3.onMem Mem.tick = r at h3
+        obtain ⟨q, s4⟩ := r
+        simp only at h3 ⊢
+        rw [f1.range]
+        by_cases hpq : (p || q) = true
+        · rw [if_pos hpq]; exact h3.dropSlice
+        · rw [if_neg hpq]; exact h3.dropLoop
+      · exact h2.tick
+
 end HipVerif.Slots
